@@ -100,6 +100,55 @@ fn atom(rng: &mut Rng, form: Form, own_markers: &[String]) -> String {
     }
 }
 
+
+/// Function-like macros of the pool: FN<k> always takes k parameters
+const FUNCS: &[(&str, usize)] = &[("FN0", 0), ("FN1", 1), ("FN2", 2), ("FN3", 3)];
+const PARAMS: &[&str] = &["a", "b", "c"];
+
+/// A use of a function-like macro of the pool with arguments drawn from `leaves` (and, at use
+/// sites, nested invocations, parenthesised groups with commas, empty arguments)
+fn invocation(rng: &mut Rng, max_index: usize, leaves: &[String], depth: u32) -> String {
+    let k = rng.below(max_index as u64 + 1) as usize;
+    let (name, arity) = FUNCS[k];
+    // rarely the wrong number of arguments: both sides must reject it
+    let n = if rng.chance(1, 30) { arity + 1 } else { arity };
+    let mut args: Vec<String> = Vec::new();
+    for _ in 0..n {
+        let a = match weighted(rng, &[6, if depth < 2 { 3 } else { 0 }, 2, 1]) {
+            0 => rng.pick(leaves).clone(),
+            1 => invocation(rng, max_index, leaves, depth + 1),
+            2 => format!("( {} , {} )", rng.pick(leaves), rng.pick(leaves)),
+            _ => String::new(),
+        };
+        args.push(a);
+    }
+    let sp = if rng.chance(1, 4) { " " } else { "" };
+    format!("{name}{sp}({})", args.join(if rng.chance(1, 2) { ", " } else { "," }))
+}
+
+/// `#define FNk(params) body`: the body refers to its parameters, ints, plain identifiers,
+/// object-like pool names, function-like macros of lower index, and rarely to itself (top level)
+fn function_define(rng: &mut Rng) -> String {
+    let k = rng.below(FUNCS.len() as u64) as usize;
+    let (name, arity) = FUNCS[k];
+    let params: Vec<String> = PARAMS[..arity].iter().map(|s| s.to_string()).collect();
+    let mut leaves: Vec<String> = params.clone();
+    leaves.push(rng.range(1, 9).to_string());
+    leaves.push(rng.pick(PLAIN).to_string());
+    let mut body: Vec<String> = Vec::new();
+    for _ in 0..rng.range(1, 4) {
+        let e = match weighted(rng, &[5, 2, 2, if k > 0 { 3 } else { 0 }, 1]) {
+            0 => rng.pick(&leaves).clone(),
+            1 => rng.pick(MACROS).to_string(),
+            2 => format!("( {} + {} )", rng.pick(&leaves), rng.pick(&leaves)),
+            3 => invocation(rng, k - 1, &leaves, 2),
+            _ => format!("{name}({})", params.join(",")),
+        };
+        body.push(e);
+    }
+    format!("#define {name}({}) {}", params.join(","), body.join(" + "))
+}
+
 fn condition(rng: &mut Rng) -> String {
     let m = rng.pick(MACROS);
     match weighted(rng, &[1, 2, 3, 3, 2, 3, 3]) {
@@ -215,6 +264,8 @@ pub fn generate(rng: &mut Rng, mode: Mode, form: Form) -> Graph {
         None
     };
     let cat_prelude = rng.chance(1, 2) || form == Form::Compile && rng.chance(1, 2);
+    // half of the graphs use function-like macros
+    let funcs = rng.chance(1, 2);
     let mut fs = FsSpec::new(policy);
 
     for i in 0..n {
@@ -227,6 +278,12 @@ pub fn generate(rng: &mut Rng, mode: Mode, form: Form) -> Graph {
         let protection = weighted(rng, &protect_weights);
         if i == 0 && cat_prelude {
             lines.push("#define CAT(a,b) a##b".into());
+        }
+        if i == 0 && form == Form::Pre && funcs && rng.chance(2, 3) {
+            // most uses of the function-like pool should meet a definition
+            for _ in 0..rng.range(2, 5) {
+                lines.push(function_define(rng));
+            }
         }
         if i == 0 && form == Form::Compile && rng.chance(4, 5) {
             // most compile-form programs should be valid: start with every macro defined
@@ -285,6 +342,9 @@ pub fn generate(rng: &mut Rng, mode: Mode, form: Form) -> Graph {
                 if form == Form::Pre { 1 } else { 0 },
                 // a declaration whose name is pasted together (compile form)
                 if form == Form::Compile { 1 } else { 0 },
+                // function-like macros: definitions and uses
+                if form == Form::Pre && funcs { 3 } else { 0 },
+                if form == Form::Pre && funcs { 5 } else { 0 },
             ];
             match weighted(rng, &w) {
                 0 => {
@@ -381,6 +441,26 @@ pub fn generate(rng: &mut Rng, mode: Mode, form: Form) -> Graph {
                         "static const int CAT(mk_{i}_,{counter}) = {} ;",
                         rng.range(1, 9)
                     ));
+                }
+                14 => {
+                    let d = function_define(rng);
+                    lines.push(hash(rng, &d));
+                }
+                15 => {
+                    counter += 1;
+                    let leaves: Vec<String> = vec![
+                        rng.range(1, 9).to_string(),
+                        rng.pick(PLAIN).to_string(),
+                        rng.pick(MACROS).to_string(),
+                        rng.pick(PLAIN).to_string(),
+                    ];
+                    let inv = invocation(rng, FUNCS.len() - 1, &leaves, 0);
+                    let tail = if rng.chance(1, 3) {
+                        format!(" + {}", invocation(rng, FUNCS.len() - 1, &leaves, 1))
+                    } else {
+                        String::new()
+                    };
+                    lines.push(format!("m_{i}_{counter} {inv}{tail} ;"));
                 }
                 8 => {
                     counter += 1;
